@@ -5,7 +5,7 @@ C09 - rendering keeps the text.  Claimed for ONE clause only: docstring fields a
   R09.3 every element tag the epytext parser can build is handled by the epytext -> docutils conversion
   R09.4 every symbol name S{...} accepts has a code point
   R09.5 a documented row removed from an accumulator is put back
-  R09.6 a slot filled piecewise by two field kinds is created only while empty
+  R09.6 a slot filled piecewise by two field kinds is created only while empty, and rendered whichever of its parts it has
   R09.7 a reST directive declaring a body reads self.content on every path through run()
   R09.8 a docutils visit method that prunes its subtree renders all of it (no single child picked by index)
   R09.9 a function that replaces a field list uses or keeps every field of it
@@ -15,7 +15,8 @@ C09 - rendering keeps the text.  Claimed for ONE clause only: docstring fields a
   R09.13 a width cut from the front of every line of a block is computed over all of its lines
   R09.17 the title docutils promotes to document title (a lone top-level section) is still rendered in the body
   R09.18 the translator does not spell a character of the text as an entity the XML re-parse rejects (U+00A0 -> &nbsp;)
-  R09.16 a field handler that keeps ONE text per entry reports a second field for the same entry before it overwrites the first
+  R09.16 a field handler that keeps ONE text per entry (FieldHandler slots; extract_fields for the tags FieldHandler leaves to it) reports a second field
+         for the same entry before it overwrites the first
   R09.15 verbatim epytext tokens (literal and doctest blocks) are cut from their lines by one line-independent width
   R09.14 a consolidated-field handler turns every child of a list item into field content (whole copy, or indexes covered by a validated length)
 Does not decide: word-for-word preservation, ordering, literal/doctest blocks, napoleon conversion (equalities over runtime strings).
